@@ -243,6 +243,26 @@ def r3_pairing(ctx):
     pc = [c for c in A.calls_in(f) if A.call_target(c) == ('self', '_popToLoop')]
     ok = len(pc) == 1 and A.const(pc[0].args[0]) == 'ISA'
     yield Ob('x12file:X12Writer.Close pops to ISA', ok, ctx.floc(f), '' if ok else 'Close does not call _popToLoop(\'ISA\')')
+    if ok:
+        # ... on every path: a normal return of Close that has not passed the pop leaves the open envelopes without trailers.
+        # (A return under a test of `self.loops` itself - nothing is open - is the one exception.)
+        g = ctx.cfg(f)
+
+        def is_pop(n):
+            return any(x is pc[0] for x in g.walk_exprs(n))
+
+        def edge_ok(n, l, s_):
+            if n.kind == 'test' and n.ast is not None and 'self.loops' in norm(n.ast, 200):
+                t = norm(n.ast, 200)
+                empty_on = 'F' if t in ('self.loops', 'len(self.loops) > 0', 'len(self.loops) != 0', 'len(self.loops)') else \
+                    'T' if t in ('not self.loops', 'len(self.loops) == 0') else None
+                if empty_on is not None and l == empty_on:
+                    return False
+            return True
+        path = g.find_path(g.entry, lambda n: n is g.exit, blocked=is_pop, edge_ok=edge_ok)
+        yield Ob('x12file:X12Writer.Close pops to ISA on every path to its return', path is None, ctx.floc(f),
+                 '' if path is None else 'Close can return without closing the open envelopes (via %s): the output ends without the trailers it needs'
+                 % ' -> '.join('L%s' % n.ast.lineno for n in path if getattr(n, 'ast', None) is not None and hasattr(n.ast, 'lineno'))[:120])
 
 
 def r4_isa_delims(ctx):
